@@ -169,6 +169,7 @@ const (
 	verifTickSrvReqTimer               // server stream loop: the request timer has fired
 	verifTickSrvIdle                   // server: the idle timer has fired (closeIdleConn has sent its GOAWAY and closed closer)
 	verifTickSrvOpening                // server stream loop: about to open a stream for a HEADERS frame (before it re-checks closing)
+	verifTickCliGoAwaySweep            // client read loop: a GOAWAY has been taken in, the streams it disclaims are about to be failed
 	verifTickCount
 )
 
@@ -193,6 +194,7 @@ const (
 	VerifTickSrvReqTimer        = verifTickSrvReqTimer
 	VerifTickSrvIdle            = verifTickSrvIdle
 	VerifTickSrvOpening         = verifTickSrvOpening
+	VerifTickCliGoAwaySweep     = verifTickCliGoAwaySweep
 	VerifTickCount              = verifTickCount
 )
 
